@@ -356,9 +356,26 @@ def operator_fresh(P, R):
             c = p.term_cond(bid)
             if is_var(c):
                 sw = (bid, c['name'])
+    uses = None
     if sw is None:
-        R.broke('C18.MPT.2: the severity-set parser no longer switches on an operator variable')
-        return
+        # the operator is not switched on but compared (`op == 1 || op == 2`): it is the local that is given several
+        # constant codes and compared with constants; every block that tests it is a use
+        cand = {}
+        for t in p.stores():
+            if t.ev['k'] == 'store' and is_var(t.ev.get('lhs')) and t.ev.get('op') == '=' and isinstance(const_of(t.ev.get('rhs')), int) and 'int' in t.ev['lhs'].get('t', ''):
+                cand.setdefault(t.ev['lhs']['name'], set()).add(const_of(t.ev['rhs']))
+        tested = {}
+        for b0 in p.reachable_blocks():
+            for e in p.out[b0]:
+                r = e.rel() if e.cond is not None and e.label not in ('case', 'default') else None
+                if r and is_var(r[0]) and r[0]['name'] in cand and isinstance(const_of(r[2]), int):
+                    tested.setdefault(r[0]['name'], set()).add(b0)
+        best = [v for v in cand if len(cand[v]) >= 3 and len(tested.get(v, ())) >= 2]
+        if len(best) != 1:
+            R.broke('C18.MPT.2: the severity-set parser no longer selects the range by an operator variable')
+            return
+        sw = (min(tested[best[0]]), best[0])
+        uses = sorted(tested[best[0]])
     bid, opv = sw
     # element boundary: the store that takes the next element (sev_str = sep ...) - any assignment in a loop condition
     elem = [s for s in p.stores() if s.ev['k'] == 'store' and s.ev.get('op') == '=' and is_var(s.ev.get('lhs')) and is_var(s.ev.get('rhs')) and s.bid in p.reach([e.dst for e in p.out[s.bid]])
@@ -375,8 +392,10 @@ def operator_fresh(P, R):
         return st
     before, _, sin, bout = p.forward('stale', on_event, None)
     sts = bout.get(bid, set()) | {st for st in sin.get(bid, set())} if False else sin.get(bid, set())
-    # states at the end of the switch block
+    # states at the end of the switch block (or of every block that tests the operator)
     sts = bout.get(bid, set())
+    for b1 in (uses or []):
+        sts = sts | bout.get(b1, set())
     R.ob('C18.MPT.2', bool(elem), elem[0] if elem else p, 'the parser takes comma elements one at a time', key='elements', nontrivial=False)
     R.ob('C18.MPT.2', bool(sts) and sts <= {'fresh'}, P.relloc((p.blocks[bid].get('term') or {}).get('loc', '?')),
          'the range operator is assigned for every comma element before it is used (no value carried over from the previous element): %s' % sorted(sts), key='operator-fresh')
